@@ -222,7 +222,7 @@ func runHistory(c *facet.Ctx, h Hist) error {
 	for k := range st.flags {
 		c.Label(k)
 	}
-	if st.flags["mutated-accessor-result"] || st.flags["mutated-ctor-input"] || st.flags["copy-then-add-big-bucket"] {
+	if st.flags["mutated-accessor-result"] || st.flags["mutated-ctor-input"] || st.flags["copy-then-add-big-bucket"] || st.flags["marked-derived"] {
 		c.NonTrivial()
 	}
 	return nil
@@ -284,6 +284,29 @@ func (st *state) step(s Step) {
 			r = b.NewValue()
 		}) {
 			st.push(r, "refine")
+		}
+	case "mark":
+		// deriving a differently marked value must not touch the value it is derived from
+		a := st.pick(s.A)
+		st.log = append(st.log, fmt.Sprintf("mark #%d variant %d", mod(s.A, len(st.lives)), s.N))
+		var r cty.Value
+		if !guarded(func() {
+			switch mod(s.N, 5) {
+			case 0:
+				r = a.Mark(spec.Mark(fmt.Sprintf("d%d", s.C)))
+			case 1:
+				r = a.WithMarks(cty.NewValueMarks(spec.Mark(fmt.Sprintf("w%d", s.C))))
+			case 2:
+				r = a.WithSameMarks(st.pick(s.B))
+			case 3:
+				u, _ := a.Unmark()
+				r = u.Mark(spec.Mark("again"))
+			default:
+				r = a.MarkWithPaths([]cty.PathValueMarks{{Path: cty.Path{}, Marks: cty.NewValueMarks(spec.Mark(fmt.Sprintf("p%d", s.C)))}})
+			}
+		}) {
+			st.push(r, "mark")
+			st.flags["marked-derived"] = true
 		}
 	case "acc":
 		st.accessor(s)
@@ -627,7 +650,7 @@ func genHist(setHeavy bool) func(t *rapid.T) Hist {
 			h.Kinds = append(h.Kinds, rapid.IntRange(0, 1).Draw(t, "setkind"))
 		}
 		nsteps := rapid.IntRange(3, 14).Draw(t, "nsteps")
-		kinds := []string{"op", "op", "conv", "refine", "acc", "acc", "acc", "ctor", "ctor", "vs", "vs"}
+		kinds := []string{"op", "op", "conv", "refine", "mark", "mark", "acc", "acc", "acc", "ctor", "ctor", "vs", "vs"}
 		if setHeavy {
 			kinds = []string{"vs", "vs", "vs", "vs", "vs", "acc", "op"}
 		}
@@ -653,7 +676,7 @@ func genHist(setHeavy bool) func(t *rapid.T) Hist {
 func init() {
 	facet.Register(facet.F[Hist]{
 		Prop: "C20", Name: "history/fingerprints", Quick: 15000, Thorough: 150000, Shards: 4,
-		Rule: "pool of 2..5 generated values (nulls, unknowns, marks, nesting) and 0..2 ValueSets, then 3..14 steps: operation / conversion / refinement deriving a new live value, accessor call followed by mutation of the returned Go data, constructor call followed by mutation of the Go data passed in, ValueSet step; after every step every live value's deep fingerprint and every ValueSet's contents must be unchanged; non-trivial = at least one mutate-after-accessor or mutate-after-constructor step took effect, or an Add into a bucket of >= 3 after a Copy",
+		Rule: "pool of 2..5 generated values (nulls, unknowns, marks, nesting) and 0..2 ValueSets, then 3..14 steps: operation / conversion / refinement / re-marking (Mark, WithMarks, WithSameMarks, MarkWithPaths on values that may already be marked or were extracted from marked containers) deriving a new live value, accessor call followed by mutation of the returned Go data, constructor call followed by mutation of the Go data passed in, ValueSet step; after every step every live value's deep fingerprint and every ValueSet's contents must be unchanged; non-trivial = at least one mutate-after-accessor or mutate-after-constructor step took effect, or an Add into a bucket of >= 3 after a Copy",
 		Gen:  genHist(false), Check: runHistory,
 	})
 	facet.Register(facet.F[Hist]{
